@@ -718,20 +718,6 @@ func recoverAt(self, run1, hf string, ops []fsop, k int, sum *vhlib.Summary, h h
 			if intsEq(want, got) {
 				return
 			}
-			if h.PQ {
-				// the known finding and nothing else: exactly the matching events of the blocks the searcher skips are missing
-				skipped := skippedByKnownDefect(h, visible)
-				var want2 []int
-				for _, id := range want {
-					if !skipped[id] {
-						want2 = append(want2, id)
-					}
-				}
-				if len(skipped) > 0 && intsEq(want2, got) {
-					sum.Fail("persistent_query_skips_block_without_match_results", fmt.Sprintf("crash point %d, %s: %s returns %v, expected %v: the crash came after the .sfm rename of a flush and before the end of its pqmr record; the file reports as many blocks as the .sfm's NumBlocks (= index of the last flushed block), so the block of that flush is not searched", k, when, how, got, want), c)
-					return
-				}
-			}
 			have := map[int]int{}
 			for _, id := range got {
 				have[id]++
